@@ -58,6 +58,47 @@ Definition dec_sized {A} (size : N) (n : N) (d : dec A) : dec (list A) :=
 Definition dec_bytes_vec : dec bytes := dec_vec 1 read_u8.           (* Vec<u8> *)
 Definition enc_bytes_vec (b : bytes) : bytes := enc_varint (lenN b) ++ b.
 
+(* ---- String: Vec<u8> then String::from_utf8 (well-formed UTF-8 per RFC 3629 / Unicode table 3-7:
+   no overlong forms, no surrogates U+D800..U+DFFF, nothing above U+10FFFF) ---------------------------- *)
+Fixpoint utf8_valid (fuel : nat) (s : list N) : bool :=
+  match fuel with
+  | O => match s with [] => true | _ => false end
+  | S f =>
+      let cont b := (128 <=? b) && (b <=? 191) in
+      match s with
+      | [] => true
+      | b0 :: r =>
+          if b0 <=? 127 then utf8_valid f r
+          else if (194 <=? b0) && (b0 <=? 223) then
+            match r with b1 :: r' => cont b1 && utf8_valid f r' | _ => false end
+          else if b0 =? 224 then
+            match r with b1 :: b2 :: r' => (160 <=? b1) && (b1 <=? 191) && cont b2 && utf8_valid f r' | _ => false end
+          else if ((225 <=? b0) && (b0 <=? 236)) || (b0 =? 238) || (b0 =? 239) then
+            match r with b1 :: b2 :: r' => cont b1 && cont b2 && utf8_valid f r' | _ => false end
+          else if b0 =? 237 then
+            match r with b1 :: b2 :: r' => (128 <=? b1) && (b1 <=? 159) && cont b2 && utf8_valid f r' | _ => false end
+          else if b0 =? 240 then
+            match r with b1 :: b2 :: b3 :: r' => (144 <=? b1) && (b1 <=? 191) && cont b2 && cont b3 && utf8_valid f r' | _ => false end
+          else if (241 <=? b0) && (b0 <=? 243) then
+            match r with b1 :: b2 :: b3 :: r' => cont b1 && cont b2 && cont b3 && utf8_valid f r' | _ => false end
+          else if b0 =? 244 then
+            match r with b1 :: b2 :: b3 :: r' => (128 <=? b1) && (b1 <=? 143) && cont b2 && cont b3 && utf8_valid f r' | _ => false end
+          else false
+      end
+  end.
+Definition is_utf8 (b : bytes) : bool := utf8_valid (S (List.length b)) (map b2n b).
+Definition dec_string : dec bytes :=
+  b <- dec_bytes_vec ;; if is_utf8 b then ret b else fail EBad.
+Definition enc_string (b : bytes) : bytes := enc_bytes_vec b.
+
+(* MultisigKlrki { K, L, R, ki } and MultisigOut { c: Vec<Key> } (impl_consensus_encoding!) *)
+Record multisig_klrki := mk_klrki { mk_K : bytes; mk_L : bytes; mk_R : bytes; mk_ki : bytes }.
+Definition dec_klrki : dec multisig_klrki :=
+  K <- dec_hash ;; L <- dec_hash ;; R <- dec_hash ;; ki <- dec_hash ;; ret (mk_klrki K L R ki).
+Definition enc_klrki (m : multisig_klrki) : bytes := mk_K m ++ mk_L m ++ mk_R m ++ mk_ki m.
+Definition dec_multisig_out : dec (list bytes) := dec_vec 32 dec_hash.
+Definition enc_multisig_out (c : list bytes) : bytes := enc_vec enc_arr c.
+
 (* ---- transaction inputs / outputs ---------------------------------------------------------------- *)
 Inductive txin :=
 | Gen (height : N)
